@@ -1,56 +1,101 @@
 import MidnightZK.Model.C10.Limbs
 /-!
-Limb-level lemmas for C10 (core only): carry/borrow chains of `adc`/`sbb`/`mac` are discharged by
-`omega` after the partial products have been generalised to atoms.
+Limb-level lemmas for C10 (core only). Every `adc`/`sbb`/`mac` call is replaced by a pair of fresh
+variables constrained by one linear equation; the carry/borrow chains are then closed by `omega`.
 -/
 namespace MidnightZK.C10
 
-theorem W_eq : W = 18446744073709551616 := by decide
-
-theorem land_zero' (x : Nat) : x &&& 0 = 0 := Nat.and_zero x
+theorem W_pos : 0 < W := by decide
 
 theorem land_ones (x : Nat) (hx : x < W) : x &&& (W - 1) = x := by
   have : W - 1 = 2 ^ 64 - 1 := rfl
-  rw [this, Nat.and_two_pow_sub_one_eq_mod, Nat.mod_eq_of_lt hx]
+  rw [this, Nat.and_two_pow_sub_one_eq_mod]; exact Nat.mod_eq_of_lt hx
 
-/-- The borrow out of the four-limb subtraction chain. -/
-def borrow4 (a b : L4) : Nat :=
-  let (_, borrow) := sbb a.l0 b.l0 0
-  let (_, borrow) := sbb a.l1 b.l1 borrow
-  let (_, borrow) := sbb a.l2 b.l2 borrow
-  let (_, borrow) := sbb a.l3 b.l3 borrow
-  borrow
+/-- `adc` as a pair with its defining equation. -/
+theorem adc_pair (a b c : Nat) : ∃ lo hi, adc a b c = (lo, hi) ∧ lo + W * hi = a + b + c ∧ lo < W := by
+  refine ⟨(a + b + c) % W, (a + b + c) / W, rfl, ?_, Nat.mod_lt _ W_pos⟩
+  exact Nat.mod_add_div _ _
 
-/-- The wrapped four-limb difference. -/
-def sub4raw (a b : L4) : L4 :=
-  let (d0, borrow) := sbb a.l0 b.l0 0
-  let (d1, borrow) := sbb a.l1 b.l1 borrow
-  let (d2, borrow) := sbb a.l2 b.l2 borrow
-  let (d3, _) := sbb a.l3 b.l3 borrow
-  ⟨d0, d1, d2, d3⟩
+/-- `mac` as a pair with its defining equation. -/
+theorem mac_pair (a b c d : Nat) :
+    ∃ lo hi, mac a b c d = (lo, hi) ∧ lo + W * hi = a + b * c + d ∧ lo < W := by
+  refine ⟨(a + b * c + d) % W, (a + b * c + d) / W, rfl, ?_, Nat.mod_lt _ W_pos⟩
+  exact Nat.mod_add_div _ _
 
-/-- Add `m` under a mask. -/
-def addMasked (m d : L4) (mask : Nat) : L4 :=
-  let (d0, carry) := adc d.l0 (m.l0 &&& mask) 0
-  let (d1, carry) := adc d.l1 (m.l1 &&& mask) carry
-  let (d2, carry) := adc d.l2 (m.l2 &&& mask) carry
-  let (d3, _) := adc d.l3 (m.l3 &&& mask) carry
-  ⟨d0, d1, d2, d3⟩
+/-- The high word of `mac` on `u64` arguments is a `u64` (no u128 overflow). -/
+theorem mac_pair_lt (a b c d : Nat) (ha : a < W) (hb : b < W) (hc : c < W) (hd : d < W) :
+    ∃ lo hi, mac a b c d = (lo, hi) ∧ lo + W * hi = a + b * c + d ∧ lo < W ∧ hi < W := by
+  obtain ⟨lo, hi, e, h, l⟩ := mac_pair a b c d
+  refine ⟨lo, hi, e, h, l, ?_⟩
+  have hbc : b * c ≤ (W - 1) * (W - 1) := Nat.mul_le_mul (by omega) (by omega)
+  have hW : (W - 1) * (W - 1) = W * W - 2 * W + 1 := by decide +kernel
+  have hWW : W * W = 340282366920938463463374607431768211456 := by decide +kernel
+  have : W * hi < W * W := by simp only [W] at *; omega
+  exact Nat.lt_of_mul_lt_mul_left this
 
-theorem subL_eq (m a b : L4) : subL m a b = addMasked m (sub4raw a b) (borrow4 a b) := rfl
+/-- `sbb` with incoming borrow `bin·(2^64-1)`, as a pair. -/
+theorem sbb_pair (a b borrow bin : Nat) (ha : a < W) (hb : b < W) (hbin : bin ≤ 1)
+    (hbo : borrow = bin * (W - 1)) :
+    ∃ d bo, sbb a b borrow = (d, bo * (W - 1)) ∧ bo ≤ 1 ∧ d + b + bin = a + W * bo ∧ d < W := by
+  have : bin = 0 ∨ bin = 1 := by omega
+  rcases this with h | h <;> subst h <;> subst hbo
+  · by_cases hlt : a < b
+    · refine ⟨a + W - b, 1, ?_, by omega, by omega, by omega⟩
+      apply Prod.ext <;> simp only [sbb, W] at * <;> omega
+    · refine ⟨a - b, 0, ?_, by omega, by omega, by omega⟩
+      apply Prod.ext <;> simp only [sbb, W] at * <;> omega
+  · by_cases hlt : a < b + 1
+    · refine ⟨a + W - b - 1, 1, ?_, by omega, by omega, by omega⟩
+      apply Prod.ext <;> simp only [sbb, W] at * <;> omega
+    · refine ⟨a - b - 1, 0, ?_, by omega, by omega, by omega⟩
+      apply Prod.ext <;> simp only [sbb, W] at * <;> omega
 
-theorem borrow4_spec (a b : L4) (ha : a.wf) (hb : b.wf) :
-    borrow4 a b = if a.val < b.val then W - 1 else 0 := by
+theorem W4_eq : W ^ 4 = 115792089237316195423570985008687907853269984665640564039457584007913129639936 := by
+  decide +kernel
+
+/-- `sub` / `sub_ref`: exact value of the limb subtraction with masked add-back, for arbitrary
+`u64` limbs. -/
+theorem subL_spec (m a b : L4) (hm : m.wf) (ha : a.wf) (hb : b.wf) :
+    (subL m a b).wf ∧ (b.val ≤ a.val → (subL m a b).val = a.val - b.val) ∧
+    (a.val < b.val → (subL m a b).val = (a.val + W ^ 4 - b.val + m.val) % W ^ 4) := by
   obtain ⟨a0, a1, a2, a3⟩ := a
   obtain ⟨b0, b1, b2, b3⟩ := b
-  simp only [L4.wf, L4.val, borrow4, sbb, W] at *
-  split <;> omega
-
-theorem sub4raw_spec (a b : L4) (ha : a.wf) (hb : b.wf) :
-    (sub4raw a b).wf ∧ (sub4raw a b).val = (a.val + W ^ 4 - b.val) % W ^ 4 := by
-  obtain ⟨a0, a1, a2, a3⟩ := a
-  obtain ⟨b0, b1, b2, b3⟩ := b
-  simp only [L4.wf, L4.val, sub4raw, sbb, W] at *
-  omega
+  obtain ⟨m0, m1, m2, m3⟩ := m
+  obtain ⟨ha0, ha1, ha2, ha3⟩ := ha
+  obtain ⟨hb0, hb1, hb2, hb3⟩ := hb
+  obtain ⟨hm0, hm1, hm2, hm3⟩ := hm
+  simp only [subL, L4.wf, L4.val, W4_eq] at *
+  obtain ⟨d0, o0, e0, ho0, h0, l0⟩ := sbb_pair a0 b0 0 0 ha0 hb0 (by omega) (by omega)
+  simp only [e0]
+  obtain ⟨d1, o1, e1, ho1, h1, l1⟩ := sbb_pair a1 b1 (o0 * (W - 1)) o0 ha1 hb1 ho0 rfl
+  simp only [e1]
+  obtain ⟨d2, o2, e2, ho2, h2, l2⟩ := sbb_pair a2 b2 (o1 * (W - 1)) o1 ha2 hb2 ho1 rfl
+  simp only [e2]
+  obtain ⟨d3, o3, e3, ho3, h3, l3⟩ := sbb_pair a3 b3 (o2 * (W - 1)) o2 ha3 hb3 ho2 rfl
+  simp only [e3]
+  have : o3 = 0 ∨ o3 = 1 := by omega
+  rcases this with h | h <;> subst h
+  · simp only [Nat.zero_mul, Nat.and_zero]
+    obtain ⟨x0, c0, f0, g0, k0⟩ := adc_pair d0 0 0
+    simp only [f0]
+    obtain ⟨x1, c1, f1, g1, k1⟩ := adc_pair d1 0 c0
+    simp only [f1]
+    obtain ⟨x2, c2, f2, g2, k2⟩ := adc_pair d2 0 c1
+    simp only [f2]
+    obtain ⟨x3, c3, f3, g3, k3⟩ := adc_pair d3 0 c2
+    simp only [f3]
+    simp only [W] at *
+    omega
+  · simp only [Nat.one_mul, land_ones _ hm0, land_ones _ hm1, land_ones _ hm2, land_ones _ hm3]
+    obtain ⟨x0, c0, f0, g0, k0⟩ := adc_pair d0 m0 0
+    simp only [f0]
+    obtain ⟨x1, c1, f1, g1, k1⟩ := adc_pair d1 m1 c0
+    simp only [f1]
+    obtain ⟨x2, c2, f2, g2, k2⟩ := adc_pair d2 m2 c1
+    simp only [f2]
+    obtain ⟨x3, c3, f3, g3, k3⟩ := adc_pair d3 m3 c2
+    simp only [f3]
+    simp only [W] at *
+    omega
 
 end MidnightZK.C10
